@@ -425,7 +425,8 @@ func run(c *core.Ctx) {
 	c.SetRule("batches share a vocabulary (field paths incl. nested / shielded-dot names, base words with shared prefixes/suffixes, case variants, multi-byte text, runes whose lower-case has another UTF-8 length, JSON escapes); " +
 		"do_if trees up to depth 4 from every operator (equal, contains, contains_any, prefix, suffix, regex; byte_len_cmp, array_len_cmp, int_val_cmp x 6 comparators; ts_cmp const/now/file_d_start in 13 formats; check_type; and/or/not), case sensitive and not, 1-5 values incl. empty, duplicate, null; " +
 		"match_fields with 0-3 conditions (value lists, bare strings, /regexp/) x {and, or, and_prefix, or_prefix, default} x match_invert; events: generic ones plus ones aimed at each rule's boundaries (absent, null, bool, number, nested object/array, lengths around the values' lengths, timestamps around thresholds). " +
-		"Each (rule,event) pair is decided at least twice (value/operand order permuted, other earlier events, reused roots). distinct_nontrivial = distinct (rule shape, kinds of the looked-up fields, documented outcome).")
+		"Each (rule,event) pair is decided at least twice (value/operand order permuted, other earlier events, reused roots). " +
+		"Concurrent clause: one Checker evaluated by 2..8 goroutines at once over disjoint decoded events (20/24 rounds, each event twice in a row) against its own sequential decisions; the same selectors in a single-processor pipeline and in a 16-processor pipeline fed by 4-8 goroutines over 4-8 streams, 6 rounds, compared per (action,event). distinct_nontrivial = distinct (rule shape, kinds of the looked-up fields, documented outcome), plus distinct (operator description, goroutines/active processors) of concurrently evaluated checkers that have both outcomes among their events.")
 	c.Assume("the naive evaluator is the specification: pipeline/doif/README.md, pipeline/README.md (match modes, datetime formats), doc comments of pipeline/plugin.go; Go regexp and time.Parse are trusted as the documented regex/time engines")
 	c.Assume("a JSON null in `values` of `equal` means 'field is null or absent' (code comment + unit test equal_nil_or_empty_string); pairs whose outcome the documentation leaves open (e.g. contains \"\" on an absent field, int_val_cmp on a fraction, match_fields on null/bool/object/array) are counted as undetermined_by_docs and not judged")
 	c.Assume("ts_cmp now/file_d_start thresholds are only judged when the field timestamp is >= 12h away from them (generated >= 24h away)")
